@@ -121,13 +121,13 @@ structure OldSite (f f1 : Forest) (c : Nat) : Prop where
   w : f1.W
   corrupt : f1.corrupt = f.corrupt
   liveC : f1.isLive c = f.isLive c
-  valueC : f1.value? c = f.value? c
+  catC : (f1.value? c).map Value.category = (f.value? c).map Value.category
   /-- containers keep their ancestor chain, liveness and parent -/
   keep : ∀ q, f.isLive q = true → f.textOf q = none →
     f1.ancestors q = f.ancestors q ∧ f1.parent? q = f.parent? q ∧ f1.isLive q = true
 
 /-- Frames that only delete text leaves keep the chain of every non-text node. -/
-theorem Frame.keepContainer {f f1 : Forest} {P V : List Nat} (fr : Frame f f1 P V) (w : f.W)
+theorem Frame.keepContainer {f f1 : Forest} {P : List Nat} (fr : Frame f f1 P) (w : f.W)
     (w1 : f1.W) (hP : ∀ x ∈ P, (f.textOf x).isSome = true) {q : Nat} (hq : f.isLive q = true)
     (hqt : f.textOf q = none) :
     f1.ancestors q = f.ancestors q ∧ f1.parent? q = f.parent? q ∧ f1.isLive q = true := by
@@ -146,13 +146,7 @@ theorem oldSite {f : Forest} (w : f.W) (c : Nat) :
     OldSite f (f.removeConsolidate (f.prevSibling c) (f.nextSibling c)).1 c := by
   obtain ⟨w1, _, P, hP, fr⟩ := removeConsolidate_spec w (f.prevSibling c) (f.nextSibling c)
   have hcP : c ∉ P := fun h' => (nextSibling_sib w (hP c h').1).ne rfl
-  have hcV : c ∉ P ++ (f.prevSibling c).toList := by
-    rw [List.mem_append, not_or]
-    refine ⟨hcP, ?_⟩
-    cases hp : f.prevSibling c with
-    | none => simp
-    | some p => simpa using ((prevSibling_sib w hp).ne).symm
-  exact ⟨w1, fr.corrupt, fr.live c hcP, fr.value c hcV,
+  exact ⟨w1, fr.corrupt, fr.live c hcP, fr.category hcP,
     fun q hq hqt => fr.keepContainer w w1 (fun x hx => (hP x hx).2.1) hq hqt⟩
 
 end Forest
